@@ -106,6 +106,7 @@ class Inputs:
                 if nm.startswith(tag):
                     self.inputs['y_' + nm] = Sym(ENG.logv[nm][1])
         else:
+            self.inputs = {}
             # concrete: energies from the monomial variables y = exp(E/2)
             def e(nm):
                 return 2 * np.log(float(vals['y_' + nm]))
@@ -196,10 +197,22 @@ def code_sqrt_rho(calc, inp):
         return PROXY.sqrt(rho), rho
 
 
-def concrete_instance(inp, k=0):
-    """hypotheses fixing every input monomial variable to a dyadic value (used by vacuity twins)"""
-    vals = [1, 1.25, 0.75, 1.5, 0.875, 1.125, 2, 0.625, 1.75, 1.375, 0.5, 1.625]
+def concrete_instance(inp, k=0, fixed=None):
+    """hypotheses fixing every input monomial variable to a dyadic value (used by vacuity twins and probes)"""
+    vals = [1.25, 0.75, 1.5, 0.875, 1.125, 2, 0.625, 1.75, 1.375, 0.5, 1.625, 1]
     hyp = []
+    fixed = fixed or {}
     for n, (nm, y) in enumerate(sorted(inp.inputs.items())):
-        hyp.append(y == vals[(n + k) % len(vals)])
+        hyp.append(y == (fixed[nm] if nm in fixed else vals[(n + k) % len(vals)]))
     return hyp
+
+
+def link_runs(k_base, k_other, scale=1):
+    """uniqueness instance linking the bias solve of run k_other to the one of run k_base (DESIGN 1.4): the base
+    solution (divided by `scale` for pinv, where omega scales by `scale`) is offered as candidate for the other system"""
+    if 'solve' in ENG.records and len(ENG.records['solve']) > max(k_base, k_other):
+        contracts.unique_solve_hint(ENG.records['solve'][k_other], ENG.records['solve'][k_base][2])
+    elif 'pinv' in ENG.records and len(ENG.records['pinv']) > max(k_base, k_other):
+        X0 = ENG.records['pinv'][k_base][1]
+        cand = X0 if (not isinstance(scale, Sym) and scale == 1) else np.asarray(X0, dtype=object) * (1 / scale)
+        contracts.unique_pinv_hint(ENG.records['pinv'][k_other], cand)
